@@ -6,6 +6,31 @@ ALL = [f"C{i:02d}" for i in range(1, 21)]
 
 # id -> (category, technique, text, note, design_ref)
 CHECKS = {
+    "C01": ("exploration",
+            "bounded-exhaustive enumeration of small problems x solver configurations x RNG streams x split-plan policies, solved in deterministic workers and judged by an independent oracle",
+            "Every problem of 11 small-problem families (core multisets of 11 job templates x fleet x shift x objectives, pickup-delivery, multi-dimensional load, skills/groups/compatibility/order/value, limits, reloads/breaks/two shifts, relations, unreachable legs, scaled profiles, infeasible, tour-shape objectives) x every configuration of a configuration alphabet (population x hyper-heuristic x generations x RNG stream x split-plan policy x initial size) plus long 12-job runs is solved by the real solver; the hard-constraint rule group of the oracle (capacity per reload interval and dimension, time windows, shift, skills, limits, groups, compatibility, order, reachability, relation pinning) is judged on every returned solution.",
+            "<= 6 jobs / 3 vehicles / 5 locations (12 jobs in the long runs); required breaks, recharge, clustering outside the oracle; real thread interleavings are replaced by split-plan policies (C15 samples real pools).",
+            "DESIGN.md section 5 C01"),
+    "C02": ("exploration",
+            "same scenario space as C01, accounting rule group of the oracle",
+            "Same enumeration as C01 (own runs); the accounting rules are judged: plan jobs = assigned + unassigned exactly once, all tasks of an assigned job once on one tour with pickups before deliveries, reasons present, known ids only, every tour names an existing vehicle/shift and serves at least one job, no vehicle shift twice, break/reload activities map to distinct definitions of that shift.",
+            "As C01.",
+            "DESIGN.md section 5 C02"),
+    "C03": ("exploration",
+            "same scenario space as C01, replay of every returned tour from the matrices alone",
+            "Same enumeration as C01 (own runs); every returned tour is replayed from the problem's matrices, costs and the reported visiting order: arrival/departure per stop, activity intervals, per-stop load, cumulative distance, tour statistic incl. the driving/serving/waiting/break split and cost, overall statistic = sum of tours, place tag = tag of the place used. Integral worlds: exact; scaled profiles: +-1 per leg.",
+            "As C01; tours using a leg the matrix flags unreachable cannot be replayed (undefined) and are judged by C01 only.",
+            "DESIGN.md section 5 C03"),
+    "C04": ("model_checking",
+            "explicit-state BFS over operator histories on the real InsertionContext with an invariant evaluated in every new state",
+            "Roots are initial constructions (4 recreate methods x 2 random policies) of a slice of the pragmatic families plus 12-job line problems with relations; transitions are 35 shipped operators (every ruin + cheapest recreate, string ruin + every recreate, 6 local operators, LKH in both modes, decomposition, redistribution, infeasible search, the default composite) x random-answer policies; BFS to depth 2/3 with states merged on a canonical digest of tours and job sets; I1 partition of customer jobs, I2 registry, I3 multi-jobs, I4 pinned jobs, I5 feasibility by the independent oracle, I6 parent unchanged (full digest incl. cached state via hook H4), I7 no panic.",
+            "Random answers: default menu entry or pseudo-random streams, not the full deviation tree; a state cap per root (reported); problems <= 12 jobs.",
+            "DESIGN.md section 5 C04"),
+    "C05": ("model_checking",
+            "same BFS as C04; in every state the cached route/solution state (hook H4 digest) is compared with a full recomputation from the bare tours",
+            "In every state reached by the C04 search the cached per-route and per-solution state is rendered through hook H4, the state is stripped, rebuilt with the library's own accept_route_state/accept_solution_state (to a fixpoint, <= 3 passes) and compared; tours must not change under recomputation and the fitness vector must be a function of the tours.",
+            "As C04; entries of unknown type would be counted as opaque (currently 0).",
+            "DESIGN.md section 5 C05"),
     "C06": ("exploration",
             "bounded-exhaustive enumeration of small tours x jobs x positions on the real evaluator against an independent step-by-step simulator",
             "Every visiting sequence of <= 4 (quick) / 6 (thorough) tasks over 14 task templates (static and shipment demand, point/two/late windows, two places, service 0/5) with every place and window choice on 6 vehicles (closed/open, loose/tight end, capacity 1/2, a start interval with three departures) that the simulator finds feasible is built on the real types; every outside job is evaluated at every leg (Concrete) and with Any (exhaustive legs, best selector). Soundness: a Success, applied exactly as the library applies it, must simulate feasible. Completeness (single-task jobs): if the simulator finds any feasible (position, place, window), Any must succeed.",
